@@ -496,10 +496,10 @@ Proof.
       * destruct (N.ltb_spec 0 (listeners st)).
         -- eexists; eexists. split; [reflexivity|]. split; [exact I|]. cbn [step]. rewrite Esv.
            destruct (N.ltb_spec 0 (listeners st)); [|lia]. split; [reflexivity|].
-           unfold measure. cbn [sv listeners conns sesss]. rewrite Esv. lia.
+           unfold measure. cbn [sv listeners conns sesss]. rewrite Esv. cbn [ost_w]. lia.
         -- eexists; eexists. split; [reflexivity|]. split; [exact I|]. cbn [step]. rewrite Esv.
            destruct (N.eqb_spec (listeners st) 0); [|lia]. split; [reflexivity|].
-           unfold measure. cbn [sv listeners conns sesss]. rewrite Esv. cbn. lia.
+           unfold measure. cbn [sv listeners conns sesss]. rewrite Esv. cbn [ost_w]. lia.
       * exfalso. unfold all_closed in Hnc. rewrite Esv in Hnc. cbn [ost_eqb andb] in Hnc.
         assert (forallb (fun c => ost_eqb (c_st c) Closed) (conns st) = true).
         { apply forallb_forall. intros x Hx. rewrite Forall_forall in Hcc. rewrite (Hcc x Hx). reflexivity. }
@@ -565,22 +565,25 @@ Theorem client_close_terminates : forall n c,
                    cl_st c' = Closed /\ nlen steps <= n.
 Proof.
   induction n as [|n IH] using N.peano_ind; intros c Hc Hm.
-  - unfold cl_measure in Hm. rewrite Hc in Hm. cbn in Hm. lia.
+  - unfold cl_measure in Hm. rewrite Hc in Hm. cbn [ost_w] in Hm. lia.
   - destruct c as [o r w l]. cbn [cl_st] in Hc. subst o.
+    assert (Hstep : forall s c1, cstep (mkCl Closing r w l) s = Some c1 -> cl_st c1 = Closing -> cl_measure c1 <= n ->
+              exists steps c', fold_left (fun o s => match o with Some x => cstep x s | None => None end) steps
+                                 (Some (mkCl Closing r w l)) = Some c' /\ cl_st c' = Closed /\ nlen steps <= N.succ n).
+    { intros s c1 Hs Hc1 Hm1. destruct (IH c1 Hc1 Hm1) as (steps & c' & H1 & H2 & H3).
+      exists (s :: steps), c'. split; [|split; [exact H2|cbn [nlen]; lia]]. cbn [fold_left]. rewrite Hs. exact H1. }
+    unfold cl_measure in Hm. cbn [ost_w cl_st cl_reader cl_workers cl_listeners] in Hm.
     destruct (N.ltb_spec 0 w) as [Hw|Hw].
-    + destruct (IH (mkCl Closing r (N.pred w) l) eq_refl) as (steps & c' & H1 & H2 & H3).
-      { unfold cl_measure in *. cbn in *. lia. }
-      exists (ClWorkerExit :: steps), c'. repeat split; auto; [|cbn [nlen]; lia].
-      cbn [fold_left cstep cl_st cl_workers cl_reader cl_listeners]. destruct (N.ltb_spec 0 w); [exact H1|lia].
+    + apply (Hstep ClWorkerExit (mkCl Closing r (N.pred w) l)); [|reflexivity|].
+      * cbn [cstep cl_st cl_workers cl_reader cl_listeners]. destruct (N.ltb_spec 0 w); [reflexivity|lia].
+      * unfold cl_measure. cbn [ost_w cl_st cl_reader cl_workers cl_listeners]. lia.
     + assert (w = 0) by lia. subst w. destruct r.
-      * destruct (IH (mkCl Closing false 0 l) eq_refl) as (steps & c' & H1 & H2 & H3).
-        { unfold cl_measure in *. cbn in *. lia. }
-        exists (ClReaderExit :: steps), c'. repeat split; auto; [|cbn [nlen]; lia]. exact H1.
+      * apply (Hstep ClReaderExit (mkCl Closing false 0 l)); [reflexivity|reflexivity|].
+        unfold cl_measure. cbn [ost_w cl_st cl_reader cl_workers cl_listeners]. lia.
       * destruct (N.ltb_spec 0 l) as [Hl|Hl].
-        -- destruct (IH (mkCl Closing false 0 (N.pred l)) eq_refl) as (steps & c' & H1 & H2 & H3).
-           { unfold cl_measure in *. cbn in *. lia. }
-           exists (ClListenerExit :: steps), c'. repeat split; auto; [|cbn [nlen]; lia].
-           cbn [fold_left cstep cl_st cl_workers cl_reader cl_listeners]. destruct (N.ltb_spec 0 l); [exact H1|lia].
+        -- apply (Hstep ClListenerExit (mkCl Closing false 0 (N.pred l))); [|reflexivity|].
+           ++ cbn [cstep cl_st cl_workers cl_reader cl_listeners]. destruct (N.ltb_spec 0 l); [reflexivity|lia].
+           ++ unfold cl_measure. cbn [ost_w cl_st cl_reader cl_workers cl_listeners]. lia.
         -- assert (l = 0) by lia. subst l.
-           exists [ClFinish], (mkCl Closed false 0 0). repeat split; cbn; auto. lia.
+           exists [ClFinish], (mkCl Closed false 0 0). split; [reflexivity|]. split; [reflexivity|]. cbn [nlen]. lia.
 Qed.
